@@ -26,6 +26,7 @@ type tableFeat struct {
 	Short      bool   `json:"short"`
 	LateWide   bool   `json:"latewide"`
 	Span       bool   `json:"span"`
+	EmptyRow   bool   `json:"emptyrow"`
 	Header     string `json:"header"`
 	CellAttr   string `json:"cellAttr"`
 	Summary    bool   `json:"summary"`
@@ -36,7 +37,7 @@ func featOf(c Case) tableFeat {
 	return tableFeat{
 		Editable: c.boolean("editable", false), Role: c.str("role", "none"), DescRole: c.str("descRole", "none"),
 		Datatable0: c.boolean("datatable0", false), Nested: c.boolean("nested", false), Rows: c.num("rows", 2),
-		Cols: c.num("cols", 2), Short: c.boolean("short", false), LateWide: c.boolean("latewide", false), Span: c.boolean("span", false), Header: c.str("header", "none"),
+		Cols: c.num("cols", 2), Short: c.boolean("short", false), LateWide: c.boolean("latewide", false), Span: c.boolean("span", false), EmptyRow: c.boolean("emptyrow", false), Header: c.str("header", "none"),
 		CellAttr: c.str("cellAttr", "none"), Summary: c.boolean("summary", false), Object: c.str("object", "none"),
 	}
 }
@@ -73,6 +74,9 @@ func buildTable(f tableFeat, g *docGen) string {
 		span := f.Span && !f.Short && !f.LateWide && f.Cols > 2
 		if span {
 			n--
+		}
+		if f.EmptyRow && !f.Short && !f.LateWide && !f.Span && !f.Nested && (f.Rows >= 3 || (f.Rows == 2 && f.Header != "th")) && i == f.Rows-1 {
+			continue // the last row has no cell at all
 		}
 		if f.Header == "rowth" {
 			// a header cell in front of every row (key / value tables): columns are counted in td cells
@@ -204,6 +208,12 @@ func placeTable(t, place string, g *docGen) string {
 	case "li":
 		t = "<ul><li>" + t + "</li></ul>"
 	case "ltcell":
+		if i := strings.Index(t, ">"); strings.HasPrefix(t, `<div contenteditable=`) && strings.HasSuffix(t, "</div>") && g.rng.Intn(2) == 0 {
+			// the editable area lies above the wrapper table, not between it and the tested table
+			open, inner := t[:i+1], t[i+1:len(t)-len("</div>")]
+			t = open + `<table id="zqwrap"><tr><td>` + inner + `</td></tr></table></div>`
+			break
+		}
 		t = `<table id="zqwrap"><tr><td>` + t + `</td></tr></table>`
 	}
 	return "<!DOCTYPE html><html><head><title>" + g.words(5) + "</title></head><body>" +
